@@ -10,4 +10,11 @@ let () = iter_lines (fun line ->
        | H1Ok o -> Printf.printf "A %d %d %s %s %s %s %s %d\n" (int_of_z o.o_method) (if o.o_http11 then 1 else 0)
                      (hex_of_bytes o.o_target_orig) (hex_of_bytes o.o_path) (match o.o_query with None -> "-" | Some q -> hex_of_bytes q) (tok_of_opt o.o_host)
                      (z_to_string o.o_rlen) (if o.o_ka then 1 else 0))
+  | "C" :: fl :: maxf :: st :: _ ->
+      let evs = run_conn (n_of_int (int_of_string fl)) (n_of_int (int_of_string maxf)) (bytes_of_hex st) in
+      print_endline (String.concat " | " (List.map (function
+        | EvAccept (m, t, b, ka, cut) -> Printf.sprintf "A %d %s %s %d %d" (int_of_z m) (hex_of_bytes t) (hex_of_bytes b) (if ka then 1 else 0) (if cut then 1 else 0)
+        | EvReject (s, a) -> Printf.sprintf "R %d %d" (int_of_n s) (int_of_n a)
+        | EvIncomplete -> "I"
+        | EvOracle -> "O") evs))
   | _ -> print_endline "?")
